@@ -41,12 +41,15 @@ REVIEWED = {
     (P + "FaitAccompli2Sampler::new::{closure#2}", "index", "Vec<f64>[usize]"): (1, "i enumerates validators; f has one entry per validator"),
     (P + "FaitAccompli2Sampler::new::{closure#3}", "index", "Vec<f64>[usize]"): (1, "as above"),
     (P + "FaitAccompli2Sampler::new::{closure#4}", "index", "Vec<f64>[usize]"): (2, "as above"),
+    ("types::stake::Stake::div_ceil", "method", "num::div_ceil"): (1, "divisor = number of bins: PartitionSampler::new returns early for num_bins == 0 (its only caller)"),
     (P + "PartitionSampler::new", "index", "Vec<Vec<ValidatorIndex>>[usize]"): (1, "current_bin < num_bins: incremented only under current_bin < num_bins - 1"),
     (P + "PartitionSampler::new", "index", "Vec<Vec<Stake>>[usize]"): (1, "current_bin < num_bins (as above)"),
     (P + "PartitionSampler::new", "arith", "sub Stake"): (1, "current_bin_stake <= stake_per_bin: stake_to_take = min(stake, stake_per_bin - current_bin_stake)"),
     (P + "PartitionSampler::new", "arith", "add_assign Stake"): (1, "bounded by stake_per_bin <= total stake"),
     (P + "PartitionSampler::new", "arith", "sub_assign Stake"): (1, "stake_to_take <= stake (min)"),
-    (P + "PartitionSampler::new", "unwrap", "Result::expect"): (1, "every bin receives positive stake when total stake >= num_bins; configuration (positive stakes) - documented precondition"),
+    (P + "PartitionSampler::new", "unwrap", "Result::expect"): (1, "stake_per_bin = total.div_ceil(num_bins) rounds up, so the last bins can stay empty (10 units in 7 bins: 2 per bin, bins 6 and 7 get nothing) and "
+                                                                "WeightedIndex::new on an empty bin fails: the constructor (and with it FaitAccompli1Sampler::new_with_partition_fallback / Rotor::new_fa1) panics for many "
+                                                                "validator sets with positive stakes", "finding"),
     (P + "StakeWeightedSampler::new", "unwrap", "Result::expect"): (1, "documented precondition: non-empty validator set with positive stakes"),
     (P + "TurbineSampler::new_with_fanout", "arith", "sub Stake"): (2, "stake_left = total - leader.stake (- root.stake): subtrahends are distinct members of the set summed into total"),
     (P + "TurbineSampler::new_with_fanout", "index", "Vec<f64>[usize]"): (3, "indexed by validator id < validators.len() (EpochInfo::new asserts id == position)"),
